@@ -505,7 +505,7 @@ func ruleGaugePair(r *Run) {
 	if r.broken() {
 		return
 	}
-	gauge := r.P.ByPth[pkgWS].Types.Scope().Lookup("wsConnectedClients")
+	gauge := lookupGlobal(r.P.ByPth[pkgWS].Types, "wsConnectedClients")
 	if gauge == nil {
 		r.Undecide("G6", "wsConnectedClients not found")
 		return
@@ -807,12 +807,14 @@ func ruleWaitFor(r *Run) {
 	for k := range chans {
 		keys = append(keys, k)
 	}
-	sort.Slice(keys, func(i, j int) bool { return chans[keys[i]].owner+keys[i].Name() < chans[keys[j]].owner+keys[j].Name() })
+	sort.Slice(keys, func(i, j int) bool {
+		return chans[keys[i]].owner+r.P.FieldName(keys[i]) < chans[keys[j]].owner+r.P.FieldName(keys[j])
+	})
 	memoAcq := map[*Func]map[string]string{}
 	nChans := 0
 	for _, k := range keys {
 		ci := chans[k]
-		name := ci.owner + "." + k.Name()
+		name := ci.owner + "." + r.P.FieldName(k)
 		if len(ci.sends) == 0 || len(ci.consumers) == 0 {
 			continue
 		}
